@@ -69,6 +69,12 @@ T_CreateRel ==
     /\ \E eid \in ObsEids \cup {0} :
         Body(QCreateRel(Ev.a, Ev.b, Ev.ret),
              LAMBDA pm : CreateRel(Ev.r, Ev.a, Ev.b, eid, Ev.ret, pm), {}, IF Ev.ret /\ CreatesRel(Ev.a, Ev.b) THEN {eid} ELSE {})
+T_CreateRelAll ==
+    /\ IsEv("CreateRelAll")
+    /\ \E eid \in ObsEids \cup {0} :
+        Body(QCreateRelAll(Ev.a, Ev.b),
+             LAMBDA pm : CreateRelAll(Ev.r, Ev.a, Ev.b, eid, pm),
+             IF CreatesRel(Ev.a, Ev.b) THEN Match(Ev.a) \cup Match(Ev.b) ELSE {}, IF CreatesRel(Ev.a, Ev.b) THEN {eid} ELSE {})
 T_SetRelProp == Step("SetRelProp", QSetRelProp(Ev.a, Ev.b, Ev.v, Ev.ret),
                      LAMBDA pm : SetRelProp(Ev.r, Ev.a, Ev.b, Ev.v, Ev.ret, pm), {}, RE(Ev.a, Ev.b))
 T_DeleteRel == Step("DeleteRel", QDeleteRel(Ev.a, Ev.b), LAMBDA pm : DeleteRel(Ev.r, Ev.a, Ev.b, pm), {}, {})
@@ -82,6 +88,6 @@ T_Reset == ResetBook /\ Fresh
 T_Fail == FailBook /\ Fresh
 
 TNext == T_Fail \/ T_Reset \/ T_CreateNode \/ T_SetProp \/ T_RemoveProp \/ T_AddLabel \/ T_RemoveLabel \/ T_DeleteNode
-         \/ T_DetachDelete \/ T_CreateRel \/ T_SetRelProp \/ T_DeleteRel \/ T_Restart
+         \/ T_DetachDelete \/ T_CreateRel \/ T_CreateRelAll \/ T_SetRelProp \/ T_DeleteRel \/ T_Restart
 TSpec == TInit /\ [][TNext]_tvars
 =============================================================================
